@@ -69,6 +69,7 @@ func genCase() *rapid.Generator[Case] {
 				}
 			case "delete":
 				op.ID = rapid.SampledFrom(idAlpha).Draw(t, "id")
+				op.Raw = rapid.IntRange(0, 5).Draw(t, "raw") == 0
 			case "query":
 				q := genQuery(c.Cfg.Indexes).Draw(t, "q")
 				op.Q = &q
